@@ -43,6 +43,10 @@ TableOK == \A i \in 1..Len(JT.ops) :
 
 JudgeBegin(e) == Tag(TableOK, "Inv.table-progress")
 
+(* gas a frame starts with: the outermost frame gets at most the run's limit; the callee of a call       *)
+(* instruction gets at most what the caller was charged for handing over (the step's cost includes the   *)
+(* forwarded amount) plus the stipend of a value transfer, and never more than the caller had when it     *)
+(* fetched the instruction; the callee of a CREATE gets at most what the creator had left after the charge *)
 JudgeEnter(e) ==
   Tag(e.depth <= DepthLim + 1, "Inv.depth-limit") \o
   Tag(e.nframes = e.depth, "Proj.depth") \o
@@ -51,7 +55,9 @@ JudgeEnter(e) ==
    ELSE LET stip == IF e.pop \in CALLOPS /\ ~e.value0 THEN CallStipend ELSE <<>>
             passed == Monus(e.gas, stip)
             avail == IF e.pop \in CREATEOPS THEN e.pg1 ELSE Add(e.pg1, passed, G256)
-        IN Tag(Le(e.gas, Add(e.pg1, Add(passed, stip, G256), G256)) /\ Le(passed, avail), "Inv.frame-gas-bound") \o
+        IN (IF e.pop \in CREATEOPS
+              THEN Tag(Le(e.gas, e.pg1), "Inv.frame-gas-bound")
+              ELSE Tag(Le(passed, e.pcost) /\ Le(e.gas, Add(e.pg0, stip, G256)), "Inv.frame-gas-bound")) \o
            Tag(Le(passed, AllButOne64th(avail)), "Ref.all-but-one-64th"))
 
 JudgeExit(e) ==
